@@ -67,6 +67,9 @@ Definition struct_fields : list (string * string) := [
   ("csvOutputConfig", "CSVOutputConfig");
   ("savedFieldSep", "string");
   ("savedFieldSepRegex", "*regexp.Regexp");
+  ("savedRecordSep", "string");
+  ("savedInputMode", "IOMode");
+  ("savedCSVInputConfig", "CSVInputConfig");
   ("program", "*parser.Program");
   ("functions", "[]compiler.Function");
   ("nums", "[]float64");
@@ -109,6 +112,7 @@ Definition fn_newInterp : list write := [
   mkW "fieldSep" Whole """ """ true;
   mkW "savedFieldSep" Whole """ """ true;
   mkW "recordSep" Whole """\n""" true;
+  mkW "savedRecordSep" Whole """\n""" true;
   mkW "outputFieldSep" Whole """ """ true;
   mkW "outputRecordSep" Whole """\n""" true;
   mkW "subscriptSep" Whole """\x1c""" true;
@@ -163,6 +167,7 @@ Definition fn_resetVars : list write := [
   mkW "savedFieldSep" Whole """ """ true;
   mkW "savedFieldSepRegex" Whole "nil" true;
   mkW "recordSep" Whole """\n""" true;
+  mkW "savedRecordSep" Whole """\n""" true;
   mkW "recordSepRegex" Whole "nil" true;
   mkW "recordTerminator" Whole """""" true;
   mkW "outputFieldSep" Whole """ """ true;
@@ -228,7 +233,7 @@ Definition calls_setExecuteConfig : list string := ["newError"; "setArrayValue";
 Definition methods_setExecuteConfig : list (string * string) := [].
 
 Definition may_setExecuteConfig : list string := ["output"; "errorOutput"; "stdin"; "filenameIndex"; "hadFiles"; "noExec"; "noFileWrites"; "noFileReads"; "shellCommand"; "csvOutput"; "noArgVars"; "openFile"; "globals"; "arrays"; "nativeFuncs"; "filename"; "line"; "lineIsTrueStr"; "lineNum"; "fileLineNum"; "fields"; "fieldsIsTrueStr"; "numFields"; "haveFields"; "argc"; "convertFormat"; "outputFormat"; "fieldSep"; "fieldSepRegex"; "recordSep"; "recordSepRegex"; "recordTerminator"; "outputFieldSep"; "outputRecordSep"; "subscriptSep"; "matchLength"; "matchStart"; "inputMode"; "csvInputConfig"; "outputMode"; "csvOutputConfig"; "csvJoinFieldsBuf"; "chars"; "newlineOutputCRLF"].
-Definition may_run : list string := ["scanner"; "scanners"; "filenameIndex"; "hadFiles"; "input"; "inputBuffer"; "inputStreams"; "outputStreams"; "csvOutput"; "splitBuffer"; "globals"; "stack"; "sp"; "frame"; "arrays"; "localArrays"; "callDepth"; "filename"; "line"; "lineIsTrueStr"; "lineNum"; "fileLineNum"; "fields"; "fieldsIsTrueStr"; "numFields"; "haveFields"; "fieldNames"; "fieldIndexes"; "reparseCSV"; "argc"; "convertFormat"; "outputFormat"; "fieldSep"; "fieldSepRegex"; "recordSep"; "recordSepRegex"; "recordTerminator"; "outputFieldSep"; "outputRecordSep"; "subscriptSep"; "matchLength"; "matchStart"; "inputMode"; "csvInputConfig"; "outputMode"; "csvOutputConfig"; "savedFieldSep"; "savedFieldSepRegex"; "ctxOps"; "randSeed"; "exitStatus"; "regexCache"; "formatCache"; "csvJoinFieldsBuf"].
+Definition may_run : list string := ["scanner"; "scanners"; "filenameIndex"; "hadFiles"; "input"; "inputBuffer"; "inputStreams"; "outputStreams"; "csvOutput"; "splitBuffer"; "globals"; "stack"; "sp"; "frame"; "arrays"; "localArrays"; "callDepth"; "filename"; "line"; "lineIsTrueStr"; "lineNum"; "fileLineNum"; "fields"; "fieldsIsTrueStr"; "numFields"; "haveFields"; "fieldNames"; "fieldIndexes"; "reparseCSV"; "argc"; "convertFormat"; "outputFormat"; "fieldSep"; "fieldSepRegex"; "recordSep"; "recordSepRegex"; "recordTerminator"; "outputFieldSep"; "outputRecordSep"; "subscriptSep"; "matchLength"; "matchStart"; "inputMode"; "csvInputConfig"; "outputMode"; "csvOutputConfig"; "savedFieldSep"; "savedFieldSepRegex"; "savedRecordSep"; "savedInputMode"; "savedCSVInputConfig"; "ctxOps"; "randSeed"; "exitStatus"; "regexCache"; "formatCache"; "csvJoinFieldsBuf"].
 Definition may_setVarByName : list string := ["csvOutput"; "globals"; "filename"; "line"; "lineIsTrueStr"; "lineNum"; "fileLineNum"; "fields"; "fieldsIsTrueStr"; "numFields"; "haveFields"; "argc"; "convertFormat"; "outputFormat"; "fieldSep"; "fieldSepRegex"; "recordSep"; "recordSepRegex"; "recordTerminator"; "outputFieldSep"; "outputRecordSep"; "subscriptSep"; "matchLength"; "matchStart"; "inputMode"; "csvInputConfig"; "outputMode"; "csvOutputConfig"; "csvJoinFieldsBuf"].
 
 Definition writes_elsewhere : list (string * write) := [
@@ -249,7 +254,7 @@ Definition writes_elsewhere : list (string * write) := [
   ("ensureFields", mkW "haveFields" Whole "true" false);
   ("ensureFields", mkW "fields" Addr "" false);
   ("ensureFields", mkW "fields" Whole "nil" false);
-  ("ensureFields", mkW "fields" Whole "strings.Fields(p.line)" false);
+  ("ensureFields", mkW "fields" Whole "splitBlanks(p.line)" false);
   ("ensureFields", mkW "fields" Whole "nil" false);
   ("ensureFields", mkW "fields" Whole "strings.Split(p.line, p.savedFieldSep)" false);
   ("ensureFields", mkW "fields" Whole "p.splitOnFieldSepRegex(p.fields[:0], p.line)" false);
@@ -369,6 +374,9 @@ Definition writes_elsewhere : list (string * write) := [
   ("setLine", mkW "reparseCSV" Whole "true" false);
   ("setLine", mkW "savedFieldSep" Whole "p.fieldSep" false);
   ("setLine", mkW "savedFieldSepRegex" Whole "p.fieldSepRegex" false);
+  ("setLine", mkW "savedRecordSep" Whole "p.recordSep" false);
+  ("setLine", mkW "savedInputMode" Whole "p.inputMode" false);
+  ("setLine", mkW "savedCSVInputConfig" Whole "p.csvInputConfig" false);
   ("setSpecial", mkW "numFields" Whole "v" false);
   ("setSpecial", mkW "fields" Whole "p.fields[:numFields]" false);
   ("setSpecial", mkW "fieldsIsTrueStr" Whole "p.fieldsIsTrueStr[:numFields]" false);
@@ -423,5 +431,5 @@ Definition field_methods : list (string * string * string) := [
   ("splitOnFieldSepRegex", "savedFieldSepRegex", "FindAllStringIndex");
   ("writeCSV", "csvOutput", "Reset")
 ].
-Definition run_functions : list string := ["array"; "arrayGet"; "arrayIndex"; "augAssignOp"; "boolean"; "callBuiltin"; "callNative"; "checkContext"; "checkContextNow"; "closeAll"; "compileRegex"; "ensureFields"; "execActions"; "execShell"; "execute"; "executeAll"; "floatToInt"; "flushAll"; "flushOutputAndError"; "flushStream"; "flushWriter"; "fromNative"; "getField"; "getFieldByName"; "getInputScannerFile"; "getInputScannerPipe"; "getOutputStream"; "getSpecial"; "getline"; "inputModeString"; "joinFields"; "lenNewline"; "localArray"; "newError"; "newInCmdStream"; "newInFileStream"; "newOutCmdStream"; "newOutFileStream"; "newOutNullStream"; "newScanner"; "nextLine"; "null"; "num"; "numStr"; "outputModeString"; "parseFmtTypes"; "parseInputMode"; "parseOutputMode"; "peekPeekPop"; "peekPop"; "peekSlice"; "peekTop"; "peekTwo"; "pop"; "popSlice"; "popTwo"; "printArgs"; "printErrorf"; "printLine"; "push"; "pushNulls"; "replaceTop"; "replaceTwo"; "setField"; "setFieldNames"; "setFile"; "setLine"; "setSpecial"; "setVarByName"; "split"; "splitOnFieldSepRegex"; "sprintf"; "str"; "sub"; "substrChars"; "substrLengthChars"; "toNative"; "toString"; "toUint64"; "validCSVSeparator"; "validateCSVInputConfig"; "validateCSVOutputConfig"; "waitExitCode"; "writeCSV"; "writeOutput"].
-Definition setExecuteConfig_functions : list string := ["array"; "arrayIndex"; "checkNativeFunc"; "ensureFields"; "initNativeFuncs"; "joinFields"; "lenNewline"; "newError"; "num"; "numStr"; "parseInputMode"; "parseOutputMode"; "setArrayValue"; "setExecuteConfig"; "setSpecial"; "setVarByName"; "splitOnFieldSepRegex"; "str"; "toString"; "validCSVSeparator"; "validNativeType"; "validateCSVInputConfig"; "validateCSVOutputConfig"; "writeCSV"; "writeOutput"].
+Definition run_functions : list string := ["array"; "arrayGet"; "arrayIndex"; "augAssignOp"; "boolean"; "callBuiltin"; "callNative"; "checkContext"; "checkContextNow"; "closeAll"; "compileRegex"; "ensureFields"; "execActions"; "execShell"; "execute"; "executeAll"; "floatToInt"; "flushAll"; "flushOutputAndError"; "flushStream"; "flushWriter"; "fromNative"; "getField"; "getFieldByName"; "getInputScannerFile"; "getInputScannerPipe"; "getOutputStream"; "getSpecial"; "getline"; "inputModeString"; "joinFields"; "lenNewline"; "localArray"; "newError"; "newInCmdStream"; "newInFileStream"; "newOutCmdStream"; "newOutFileStream"; "newOutNullStream"; "newScanner"; "nextLine"; "null"; "num"; "numStr"; "outputModeString"; "parseFmtTypes"; "parseInputMode"; "parseOutputMode"; "peekPeekPop"; "peekPop"; "peekSlice"; "peekTop"; "peekTwo"; "pop"; "popSlice"; "popTwo"; "printArgs"; "printErrorf"; "printLine"; "push"; "pushNulls"; "replaceTop"; "replaceTwo"; "setField"; "setFieldNames"; "setFile"; "setLine"; "setSpecial"; "setVarByName"; "split"; "splitBlanks"; "splitOnFieldSepRegex"; "sprintf"; "str"; "sub"; "substrChars"; "substrLengthChars"; "toNative"; "toString"; "toUint64"; "validCSVSeparator"; "validateCSVInputConfig"; "validateCSVOutputConfig"; "waitExitCode"; "writeCSV"; "writeOutput"].
+Definition setExecuteConfig_functions : list string := ["array"; "arrayIndex"; "checkNativeFunc"; "ensureFields"; "initNativeFuncs"; "joinFields"; "lenNewline"; "newError"; "num"; "numStr"; "parseInputMode"; "parseOutputMode"; "setArrayValue"; "setExecuteConfig"; "setSpecial"; "setVarByName"; "splitBlanks"; "splitOnFieldSepRegex"; "str"; "toString"; "validCSVSeparator"; "validNativeType"; "validateCSVInputConfig"; "validateCSVOutputConfig"; "writeCSV"; "writeOutput"].
